@@ -21,6 +21,7 @@ ST = os.path.join(VERIF, "selftest")
 
 # (id, kind, source, [(rule, substring of the violation key)])
 CATALOG = [
+    ("rev-7838953", "revert", "fix_7838953.diff", [("R-STALEVAR", "SSA::locate#stale-local")]),
     ("rev-e3ad698", "revert", "fix_e3ad698.diff", [("R-TAGS", "missing:StringDictionaryHASHRPDACBlocks")]),
     ("rev-37096d0", "revert", "fix_37096d0.diff", [("R-EXTENT", "DAC_BVLS::levelsIndex")]),
     ("rev-3630645", "revert", "fix_3630645.diff", [("R-DISPATCH", "missing:cds_static::BitSequence375")]),
@@ -137,7 +138,7 @@ CATALOG = [
     ("seed-C08_m8", "seeded", "C08_m8", [("R-ZEROFILL", "levels-fill-short-of-saved-extent")]),
     ("seed-C08_m9", "seeded", "C08_m9", [("R-STATE", "Hash::n")]),
     ("seed-C09_m7", "seeded", "C09_m7", [("R-INITEXTENT", "data-tail-uninitialised")]),
-    ("seed-C09_m9", "seeded", "C09_m9", [("R-SLOT", "slot-reservation")]),
+    ("seed-C09_m9", "seeded", "C09_m9", [("R-LOCKSET", "race:StringDictionaryHASHRPDACBlocks::parts")]),
     ("seed-C10_m7", "seeded", "C10_m7", [("R-DRAIN", "exit-with-queued-tasks:the-break")]),
     ("seed-C10_m8", "seeded", "C10_m8", [("R-CV", "WorkerQueue::add_task#update-of")]),
     ("seed-C10_m9", "seeded", "C10_m9", [("R-CV", "Worker::set_stopped#update-of")]),
